@@ -121,4 +121,111 @@ func f3() {
 }
 
 // further fact families are registered here as they are built
-func extra() { f3() }
+func extra() { f3(); f7() }
+
+// F7: per clone function of workflow/utils/clone/clone.go, the fields that are always copied (keys of
+// the composite literal + assignments `x.F = …` outside any `if opts.keepState`) and the fields copied
+// only under `if opts.keepState`.
+func f7() {
+	_, f := parseFile("workflow/utils/clone/clone.go")
+	type rec struct {
+		always, state []string
+	}
+	out := map[string]*rec{}
+	if f != nil {
+		for _, d := range f.Decls {
+			fn, ok := d.(*ast.FuncDecl)
+			if !ok || fn.Recv != nil || fn.Body == nil {
+				continue
+			}
+			switch fn.Name.Name {
+			case "Plan", "Checks", "Block", "Sequence", "Action":
+			default:
+				continue
+			}
+			r := &rec{}
+			out[fn.Name.Name] = r
+			seen := map[string]bool{}
+			add := func(l *[]string, s string) {
+				if !seen[s] {
+					seen[s] = true
+					*l = append(*l, s)
+				}
+			}
+			var cloneVar string
+			var visit func(n ast.Node, inKeep bool)
+			visit = func(n ast.Node, inKeep bool) {
+				ast.Inspect(n, func(x ast.Node) bool {
+					switch v := x.(type) {
+					case *ast.IfStmt:
+						if sel, ok := v.Cond.(*ast.SelectorExpr); ok && sel.Sel.Name == "keepState" {
+							visit(v.Body, true)
+							return false
+						}
+					case *ast.AssignStmt:
+						// clone := &workflow.X{...}
+						if len(v.Rhs) == 1 {
+							if ue, ok := v.Rhs[0].(*ast.UnaryExpr); ok {
+								if cl, ok := ue.X.(*ast.CompositeLit); ok {
+									if se, ok := cl.Type.(*ast.SelectorExpr); ok && se.Sel.Name == fn.Name.Name && cloneVar == "" {
+										if id, ok := v.Lhs[0].(*ast.Ident); ok {
+											cloneVar = id.Name
+										}
+										for _, e := range cl.Elts {
+											if kv, ok := e.(*ast.KeyValueExpr); ok {
+												if k, ok := kv.Key.(*ast.Ident); ok {
+													add(&r.always, k.Name)
+												}
+											}
+										}
+									}
+								}
+							}
+						}
+						for _, l := range v.Lhs {
+							sel, ok := l.(*ast.SelectorExpr)
+							if !ok {
+								// clone.Actions[i] = …
+								if ix, ok := l.(*ast.IndexExpr); ok {
+									sel, _ = ix.X.(*ast.SelectorExpr)
+								}
+							}
+							if sel == nil {
+								continue
+							}
+							if id, ok := sel.X.(*ast.Ident); ok && id.Name == cloneVar && cloneVar != "" {
+								if inKeep {
+									add(&r.state, sel.Sel.Name)
+								} else {
+									add(&r.always, sel.Sel.Name)
+								}
+							}
+						}
+					}
+					return true
+				})
+			}
+			visit(fn.Body, false)
+			sort.Strings(r.always)
+			sort.Strings(r.state)
+		}
+	}
+	var b strings.Builder
+	b.WriteString("namespace Coercion.Generated.F7\n\n")
+	b.WriteString("/-- (clone function, fields always copied, fields copied only with keep-state) -/\n")
+	b.WriteString("def clones : List (String × List String × List String) := [\n")
+	names := []string{"Plan", "Checks", "Block", "Sequence", "Action"}
+	for i, n := range names {
+		r := out[n]
+		if r == nil {
+			r = &rec{}
+		}
+		fmt.Fprintf(&b, "  (%s, %s, %s)", leanStr(n), leanStrList(r.always), leanStrList(r.state))
+		if i < len(names)-1 {
+			b.WriteString(",")
+		}
+		b.WriteString("\n")
+	}
+	b.WriteString("]\n\nend Coercion.Generated.F7\n")
+	write("F7.lean", b.String())
+}
